@@ -202,7 +202,7 @@ func init() {
 			}
 		}})
 
-	register(&Rule{ID: "C06.R6", Props: []string{"C06", "C04"}, Min: 5, Needs: NeedMain,
+	register(&Rule{ID: "C06.R6", Props: []string{"C06", "C04"}, Min: 3, Needs: NeedMain,
 		Doc: "a field that fits exactly is accepted: wherever the decoders compare an announced length with the bytes remaining, the rejecting branch is taken only for length > remaining (never for length == remaining), so a well-formed field that ends exactly at the end of its buffer is neither rejected when read nor when skipped",
 		Run: func(r *R) {
 			for _, rel := range decodePkgs {
